@@ -79,6 +79,10 @@ def witState (j : Json) : R State := do
     collaterals := ← witList j "collaterals" witCred
     requiredSigners := ← witList j "required_signers" jBytes
     nativeScripts := ← witList j "native_scripts" (witScript 64)
+    inputScripts := ← witList j "input_scripts" (witScript 64)
+    mintScripts := ← witList j "mint_scripts" (witScript 64)
+    withdrawalScripts := ← witList j "withdrawal_scripts" (witScript 64)
+    certScripts := ← witList j "cert_scripts" (witScript 64)
     certificates := ← witList j "certificates" witCert
     withdrawals := ← witList j "withdrawals" jBytes
     voters := ← witList j "voters" witCred
